@@ -37,11 +37,14 @@ func (s *scriptedSecrets) RADIUSSecret(ctx context.Context, a net.Addr) ([]byte,
 	if h != nil {
 		<-h
 	}
-	if s.errs[a.String()] {
+	s.mu.Lock()
+	isErr, sec := s.errs[a.String()], s.secs[a.String()]
+	s.mu.Unlock()
+	if isErr {
 		// an error together with a (stale) secret: the error decides
-		return s.secs[a.String()], errors.New("no secret")
+		return sec, errors.New("no secret")
 	}
-	return s.secs[a.String()], nil
+	return sec, nil
 }
 
 // peers 0 and 1 share a host and differ in the port; peer 2 is another host
@@ -369,6 +372,70 @@ func runForgedThenGenuine(c *Ctx, r *Rng) {
 	c.Count("forged-then-genuine", name)
 }
 
+// The secret source is asked for every datagram: between two datagrams of one peer its answer changes (the secret is
+// rotated, withdrawn, or the lookup starts to fail). A request signed with the new secret is dispatched, one signed
+// with the old secret is not; after a withdrawal nothing is.
+func runSecretRotation(c *Ctx, r *Rng) {
+	schedMu.Lock()
+	defer schedMu.Unlock()
+	oldSec, newSec := []byte("before-rotation"), []byte("after-rotation")
+	ss := &scriptedSecrets{secs: map[string][]byte{peerAddr(0): oldSec}, errs: map[string]bool{}, hold: map[string]chan struct{}{}}
+	gotc := make(chan string, 8)
+	cn := newFakeConn(0)
+	srv := &radius.PacketServer{SecretSource: ss, ErrorLog: log.New(io.Discard, "", 0),
+		Handler: radius.HandlerFunc(func(w radius.ResponseWriter, rq *radius.Request) {
+			gotc <- string(rq.Get(1))
+		})}
+	done := make(chan error, 1)
+	go func() { done <- srv.Serve(cn) }()
+	mk := func(id byte, name string, sec []byte) []byte {
+		p := &radius.Packet{Code: 4, Identifier: id, Secret: sec} // Accounting-Request: its authenticator depends on the secret
+		p.Add(1, []byte(name))
+		b, _ := p.Encode()
+		return b
+	}
+	send := func(b []byte) string {
+		cn.in <- fakePkt{b, fakeAddr(peerAddr(0))}
+		select {
+		case n := <-gotc:
+			return n
+		case <-time.After(150 * time.Millisecond):
+			return ""
+		}
+	}
+	kind := r.Pick(0, 1, 2)
+	var log_ []string
+	log_ = append(log_, "first (old secret): "+send(mk(1, "first", oldSec)))
+	ss.mu.Lock()
+	switch kind {
+	case 0:
+		ss.secs[peerAddr(0)] = newSec
+	case 1:
+		ss.secs[peerAddr(0)] = nil
+	case 2:
+		ss.errs[peerAddr(0)] = true
+	}
+	ss.mu.Unlock()
+	log_ = append(log_, "stale (old secret): "+send(mk(2, "stale", oldSec)))
+	log_ = append(log_, "fresh (new secret): "+send(mk(3, "fresh", newSec)))
+	ctx, cancel := context.WithTimeout(context.Background(), 3*time.Second)
+	srv.Shutdown(ctx)
+	cancel()
+	<-done
+	want := []string{"first (old secret): first", "stale (old secret): ", "fresh (new secret): fresh"}
+	what := "the secret source answers another secret for the peer"
+	if kind != 0 {
+		want[2] = "fresh (new secret): "
+		what = map[int]string{1: "the secret source answers an empty secret for the peer", 2: "the secret source answers an error for the peer"}[kind]
+	}
+	if fmt.Sprint(log_) != fmt.Sprint(want) {
+		c.Fail("spec", "PacketServer.Serve", "secret-rotation", "three Accounting-Requests from "+peerAddr(0)+"; after the first, "+what,
+			fmt.Sprintf("handler invocations: %q", log_), fmt.Sprintf("%q", want),
+			"a request is dispatched iff it is authentic under the secret the source returns for it: the source is asked for every datagram")
+	}
+	c.Count("secret-rotation", fmt.Sprint(kind))
+}
+
 // the table of requests in flight belongs to one Serve call: the same (source, identifier) arriving on another
 // socket of the same server while the first handler runs is a different request and must be dispatched
 func runTwoServes(c *Ctx, r *Rng) {
@@ -459,7 +526,10 @@ func init() {
 		for i := 0; i < c.N(4, 60); i++ {
 			runForgedThenGenuine(c, r)
 		}
+		for i := 0; i < c.N(6, 60); i++ {
+			runSecretRotation(c, r)
+		}
 		c.Flush()
-		c.RequireTags("history", "history-concurrent", "reply", "overlap", "two-serve-calls", "forged-then-genuine")
+		c.RequireTags("history", "history-concurrent", "reply", "overlap", "two-serve-calls", "forged-then-genuine", "secret-rotation")
 	}
 }
